@@ -7,6 +7,7 @@ I->S : seeded random operation sequences on the real engine validated by NBTrace
 """
 import json
 import random
+import re
 
 import numpy as np
 
@@ -310,16 +311,26 @@ def run(tier):
     wd = c.workdir("C16", "sim")
     cfg = wd / "NB_sim.cfg"
     cfg.write_text((c.SPEC / "NB_export.cfg").read_text().replace("MaxOps = 3", "MaxOps = %d" % (depth - 1)))
-    small, dev, ex, ex2, sim = c.tlc_many([
+    ind_cfg, ind_n = ("NB_ind3.cfg", 29404) if tier == "quick" else ("NB_ind4.cfg", 51699)
+    small, dev, ex, ex2, sim, ind, ind_dev = c.tlc_many([
         ("MC_NB", "NB_small.cfg" if tier == "quick" else "NB_deep.cfg", {"timeout": 3000, "workers": 6 if tier == "quick" else 10}),
         ("MC_NB", "NB_dev_readd.cfg", {"check": False, "workers": 1}),
         ("NBExport", "NB_export.cfg", {"workers": 4}),
         ("NBExport", "NB_export_thr.cfg", {"workers": 3}),
         ("NBExport", cfg, {"workers": 1, "simulate": "num=%d" % nsim, "depth": depth, "tseed": sd + 7}),
+        ("NBInductive", ind_cfg, {"timeout": 3000, "workers": 4 if tier == "quick" else 8}),
+        ("NBInductive", "NB_ind_dev_readd.cfg", {"check": False, "workers": 2}),
     ])
     # 1. design level
     ck.model_must_hold(small, "Views/QueriesAgree/LastGiven/MetricLaws")
     ck.model_must_refute(dev, "Views", "deviation F8: re-add duplicates the index")
+    # 1b. Views as an inductive invariant: one operation from EVERY Views-state of the instance (histories of any length)
+    ck.model_must_hold(ind, "Views inductive (one step from every Views-state), Views => QueriesAgree, LastGiven on every step")
+    m = re.search(r"Finished computing initial states: (\d+) distinct", ind.out)
+    if not m or int(m.group(1)) != ind_n:
+        raise c.MachineryError("NBInductive: %s initial states, closed form says %d (IndInit does not enumerate all Views-states)" % (m and m.group(1), ind_n))
+    ck.extra["inductive_step_from_states"] = ind_n
+    ck.model_must_refute(ind_dev, "Views", "deviation F8 under the inductive instance")
     # 2. S->I exhaustive export + replay
     ck.stage('replay exhaustive export')
     molof = [0, 0, 1]
